@@ -1,6 +1,7 @@
 package facts
 
 import (
+	"strconv"
 	"fmt"
 	"go/ast"
 	"go/importer"
@@ -88,6 +89,47 @@ func (g *gen) shared(withRanges bool) {
 	} else {
 		g.errs = append(g.errs, "Yaml.Get not found")
 	}
+	// the order in which the profile parser looks keys up (string literals passed to Get, in source order): the Coq
+	// transcription ProfileParser.expr_body / parse_pc / pc_qualified / parse_profile follows exactly this order
+	getOrder := func(file, fn string) []string {
+		out := []string{}
+		fd := g.funcDecl(g.parse(file), fn)
+		if fd == nil {
+			g.errs = append(g.errs, fn+" not found")
+			return out
+		}
+		ast.Inspect(fd, func(x ast.Node) bool {
+			if c, ok := x.(*ast.CallExpr); ok && selName(c.Fun) == "Get" && len(c.Args) == 1 {
+				if bl, ok := c.Args[0].(*ast.BasicLit); ok && bl.Kind == token.STRING {
+					if v, err := strconv.Unquote(bl.Value); err == nil {
+						out = append(out, v)
+					}
+				}
+			}
+			return true
+		})
+		return out
+	}
+	body += "Definition parser_expression_key_order : list string := " + CoqStringList(getOrder("internal/parser/profile/expressionparser.go", "parseExpressionValue")) + ".\n"
+	body += "Definition parser_validation_key_order : list string := " + CoqStringList(getOrder("internal/parser/profile/expressionparser.go", "ParseExpression")) + ".\n"
+	body += "Definition parser_constraint_key_order : list string := " + CoqStringList(getOrder("internal/parser/profile/constraintsparser.go", "ParseConstraint")) + ".\n"
+	body += "Definition parser_qualified_key_order : list string := " + CoqStringList(getOrder("internal/parser/profile/constraintsparser.go", "parseQualifiedNestedExpression")) + ".\n"
+	body += "Definition parser_profile_key_order : list string := " + CoqStringList(getOrder("internal/parser/profile/parser.go", "Parse")) + ".\n"
+	// the level names Parse hands to parseValidationLevel, in source order
+	levels := []string{}
+	if fd := g.funcDecl(g.parse("internal/parser/profile/parser.go"), "Parse"); fd != nil {
+		ast.Inspect(fd, func(x ast.Node) bool {
+			if c, ok := x.(*ast.CallExpr); ok && selName(c.Fun) == "parseValidationLevel" && len(c.Args) > 0 {
+				if bl, ok := c.Args[0].(*ast.BasicLit); ok && bl.Kind == token.STRING {
+					if v, err := strconv.Unquote(bl.Value); err == nil {
+						levels = append(levels, v)
+					}
+				}
+			}
+			return true
+		})
+	}
+	body += "Definition parser_level_order : list string := " + CoqStringList(levels) + ".\n"
 	if sk := g.funcDecl(g.parse("internal/generator/generator.go"), "IriExpanderFrom"); sk != nil {
 		body += "Definition sk_iri_expander_from : string := " + CoqString(g.skeleton(sk.Body.List)) + ".\n"
 	} else {
